@@ -39,6 +39,10 @@ type Family struct {
 	QuickN int64
 	// QuickDesc describes the sub-bound covered by QuickN.
 	QuickDesc string
+	// CrashClass, for Isolated families, names the input class of case i; a fatal error is
+	// reported under the signature <family>:<kind>:<class> (the frame at which a stack
+	// overflow happens to trip is not stable, the input class is).
+	CrashClass func(i int64) string
 }
 
 // A Check is everything registered for one property.
